@@ -485,6 +485,13 @@ func DistinctScore(labels []string, stores []*StoreInfo, other *StoreInfo) float
 // ones.
 func (s *StoreInfo) MergeLabels(labels []*metapb.StoreLabel) []*metapb.StoreLabel {
 	storeLabels := s.GetLabels()
+	// Merge into copies: the labels of s are shared with the store that is being served,
+	// which must stay as it is when the update is rejected or cannot be persisted.
+	copied := make([]*metapb.StoreLabel, 0, len(storeLabels)+len(labels))
+	for _, label := range storeLabels {
+		copied = append(copied, &metapb.StoreLabel{Key: label.Key, Value: label.Value})
+	}
+	storeLabels = copied
 L:
 	for _, newLabel := range labels {
 		for _, label := range storeLabels {
